@@ -18,7 +18,7 @@ from .absint import FALSE, NONE, TOP, TRUE, Undecided, exc, heap_key, is_handle,
 from .astutil import FUNC_TYPES, attr_chain, dotted
 from .effects import EffectDomain, exc_info_of, is_generator
 
-CALLABLE_TAGS = ("func", "method", "boundmethod", "bound", "partial", "builtin", "listappend", "attrgetter", "itemgetter", "methodcaller", "classref", "ctorref", "userfn", "setmethod", "decoderfactory", "decodermethod")
+CALLABLE_TAGS = ("func", "method", "boundmethod", "bound", "partial", "builtin", "listappend", "attrgetter", "itemgetter", "methodcaller", "classref", "ctorref", "userfn", "setmethod", "decoderfactory", "decodermethod", "strmethod")
 
 
 def is_inst(v):
@@ -160,6 +160,8 @@ class ObjectDomain(EffectDomain):
             if st.has(fr.local(chain[0])) or chain[0] in self.attrs:
                 return None
             return self._module_table(interp, chain[0], st, fr)
+        if len(chain) == 2 and chain[0] in ("str", "bytes") and chain[1] in self.PURE_STR_METHODS and not st.has(fr.local(chain[0])):
+            return [val(("strmethod", chain[1]), st)]   # str.strip & co. as functions: the method applied to their first argument
         if len(chain) == 2 and chain[1] in self.SET_METHODS and st.has(fr.local(chain[0])):
             # <a set>.update taken as a value (to be called later): a method bound to that very set
             held = st.get(fr.local(chain[0]))
@@ -718,6 +720,14 @@ class ObjectDomain(EffectDomain):
                 n_ = st.get("ev.alloc", 0)
                 return [val(obj + (n_,), st.set("ev.alloc", n_ + 1))]
             return [val(obj, st)]
+        if tag == "strmethod" and pos and not kw:
+            pys = [self._py(unbox_deep(v, st)) for v in pos]
+            if all(ok for ok, _ in pys) and isinstance(pys[0][1], (str, bytes)):
+                try:
+                    return [val(self._abs(getattr(pys[0][1], fn[1])(*[x for _, x in pys[1:]])), st)]
+                except Exception as e_:
+                    return [exc(("exc", type(e_).__name__), st)]
+            return [val(TOP, st)]
         if tag == "decoderfactory" and not pos and not kw:
             n = st.get("ev.decoders", 0)
             return [val(("decoder", fn[1], n), st.set("ev.decoders", n + 1))]
@@ -862,7 +872,8 @@ class ObjectDomain(EffectDomain):
         name = f"<{obj[1]}>.{bound[2]}" if isinstance(obj, tuple) else f"{obj}.{bound[2]}"
         if (bound[1], bound[2]) in self.lacks:
             return [exc(("exc", "AttributeError"), st)]
-        pos = list(pos)
+        pos = [unbox_deep(v, st) for v in pos]   # what the outside world is handed (and the log records): the objects as they are now
+        kw = [(k, unbox_deep(v, st)) for k, v in kw]
         if isinstance(obj, tuple):
             pos = [obj] + pos
         log = st.get("ev.calls", ())
